@@ -129,9 +129,10 @@ class Ctx:
         acts["__never_taken__"] = zero
         return gen, dist, acts
 
-    def tlc_mc(self, module, cfg, workers=8, timeout=1800, must_cover=(), subdir="mc", extra=(), simulate=None, coverage=True):
+    def tlc_mc(self, module, cfg, workers=8, timeout=1800, must_cover=(), subdir="mc", extra=(), simulate=None, coverage=False):
         """Exhaustive (or simulated) model check. Any invariant violation of the *spec* is a tool error:
         the spec is supposed to hold; it is the oracle."""
+        coverage = coverage or bool(must_cover)
         ex = (["-coverage", "1"] if coverage else []) + list(extra)
         if simulate:
             ex += ["-simulate", simulate]
